@@ -91,6 +91,10 @@ type Node struct {
 	// the command pattern or the output paths (created with InParam only); the
 	// function reads the values with task.Param - an empty string is then a value
 	HiddenParams bool
+	// OutNotInCmd: the out-ports exist through SetOut only; the command names its
+	// output files itself (a tool that derives them from a prefix), so there is no
+	// {o:...} placeholder in the command pattern
+	OutNotInCmd bool
 	LongArg int  // > 0: the command line carries an extra word of that many bytes (-note W: no influence on the result)
 	Say     int  // > 0: the command prints that many bytes WITHOUT a newline on its standard output (a progress bar)
 	Head    int  // > 0: the command reads only the first Head bytes of each input and closes it (head -c)
@@ -130,6 +134,9 @@ type WF struct {
 	// created and run by the main goroutine while the first one runs in a
 	// goroutine of its own
 	Parallel    bool
+	// Twin: the program builds the workflow twice and runs both instances
+	// concurrently (two users re-running the same finished workflow at once)
+	Twin        bool
 	Ghost       string // a path given to a FileSource although no such file exists
 	RunToNone   bool // RunTo* is called with a target set that selects no process at all
 	FullLogging bool // do not lower the log level: NewWorkflow sets up audit logging to stdout + file
@@ -154,6 +161,9 @@ func (w *WF) Describe() string {
 	fmt.Fprintf(&b, "workflow %s maxTasks=%d bufsize=%d", w.Name, w.MaxTasks, w.Bufsize)
 	if len(w.RunTo) > 0 {
 		fmt.Fprintf(&b, " RunTo(mode %d)=%v", w.RunToMode, w.RunTo)
+	}
+	if w.Twin {
+		b.WriteString(" x2 (two instances of this workflow run concurrently)")
 	}
 	if w.Parallel {
 		b.WriteString(" +a second workflow created and run concurrently")
@@ -210,6 +220,9 @@ func (w *WF) Describe() string {
 		}
 		if n.Custom != 0 {
 			fmt.Fprintf(&b, " gofunc=%d", n.Custom)
+		}
+		if n.OutNotInCmd {
+			b.WriteString(" outputs-named-by-the-command-itself")
 		}
 		if n.HiddenParams {
 			b.WriteString(" params-only-read-by-the-function")
